@@ -800,7 +800,8 @@ def shard_paths(st, wd, half):
         doc = corpus.load(text)
         for expr in exprs:
             for what in ("values", "keys+values", "keys"):
-                for alias in ((False, False), (True, True), (False, True)):
+                for alias in ((False, False), (True, True), (False, True),
+                              (True, False)):
                     for expand in (False, True):
                         for sep in ("dot", "slash"):
                             mode = (what, alias[0], alias[1], expand, sep)
@@ -825,7 +826,12 @@ def shard_paths_multi(st, wd):
     docs = [("m", (("ka", "aa"), ("kb", ("l", ("ab", 1000))), ("kc", "xx"))),
             ("m", (("ka", "ab"), ("kc", "aa"), ("kd", ("m", (("ka", "aa"),))))),
             ("l", ("aa", ("m", (("ka", "ab"), ("kb", 1000))), "xx")),
-            ("m", (("kz", "zz"),))]
+            ("m", (("kz", "zz"),)),
+            # anchored values that match (what one expression has seen of an
+            # anchor is no business of the next expression)
+            ("m", (("ka", ("&", "A", "aa")),
+                   ("kb", ("l", (("&", "B", "ab"), 1000))),
+                   ("kc", ("*", "A"))))]
     texts = [corpus.render_block(d) + "\n" for d in docs]
     loaded = [corpus.load(t) for t in texts]
     searches = [[("=", "aa", False)], [("^", "a", False)],
@@ -943,11 +949,14 @@ def check_paths(st, wd, fname, text, doc, expr, mode):
         argv.append("--allowkeyaliases")
     if expand:
         argv.append("--expand")
-    for delivery in ("file", "dash"):
+    for delivery in ("file", "dash", "implied"):
         if delivery == "file":
             res = cli.run("yaml-paths", argv + ["--nostdin", fname])
-        else:
+        elif delivery == "dash":
             res = cli.run("yaml-paths", argv + ["-"], stdin=text)
+        else:
+            # no YAML_FILE at all: the document waiting on stdin is read
+            res = cli.run("yaml-paths", argv, stdin=text)
         case = {"tool": "yaml-paths", "doc": text, "argv": argv,
                 "delivery": delivery}
         note(st, "yaml-paths", res, (what, ka, va, expand, sep, delivery),
